@@ -116,6 +116,7 @@ type drv struct {
 	objs   []*object
 	timers []*sonic.Timer
 	tfires []int
+	tsn    int // number of Schedule* calls made in this scenario
 	tdue   []bool // once-schedule outstanding (driver's ledger)
 	ops    map[int]*opinfo
 	posted map[int]bool
@@ -534,6 +535,8 @@ func (d *drv) exec(c Ev) {
 		t := c.T
 		tm := d.timers[t-1]
 		dur := time.Duration(c.D) * time.Microsecond
+		d.tsn++
+		sn := d.tsn // identity of this call's closure
 		fire := func() {
 			ts := d.us()
 			d.depth++
@@ -541,12 +544,12 @@ func (d *drv) exec(c Ev) {
 			if c.N == 0 {
 				d.tdue[t-1] = false
 			}
-			d.emit(Ev{Ev: "TFireB", T: t, Ts: ts, Depth: d.depth})
+			d.emit(Ev{Ev: "TFireB", T: t, Ts: ts, Depth: d.depth, H: sn})
 			d.runKey(fmt.Sprintf("tm%d.%d", t, d.tfires[t-1]))
 			d.emit(Ev{Ev: "TFireE", T: t})
 			d.depth--
 		}
-		d.emit(Ev{Ev: "TSchedB", T: t, N: c.N, D: c.D, Ts: d.us()})
+		d.emit(Ev{Ev: "TSchedB", T: t, N: c.N, D: c.D, Ts: d.us(), H: sn})
 		var err error
 		if c.N == 1 {
 			err = tm.ScheduleRepeating(dur, fire)
@@ -910,6 +913,7 @@ func (d *drv) scenario(h []Ev) (err error) {
 	d.i, d.depth, d.nontrivial = 0, 0, false
 	d.ops, d.posted = map[int]*opinfo{}, map[int]bool{}
 	d.objs, d.timers, d.tfires, d.tdue, d.bufs = nil, nil, nil, nil, nil
+	d.tsn = 0
 	d.sink = -1
 	d.ioc, err = sonic.NewIO()
 	if err != nil {
